@@ -11,3 +11,6 @@ pub assume_specification<T, A: std::alloc::Allocator> [std::collections::VecDequ
     ensures
         old(v)@.len() == 0 ==> r is None && final(v)@ == old(v)@,
         old(v)@.len() > 0 ==> (r matches Some(e) && *e == old(v)@[0] && final(v)@ == old(v)@.update(0, *final(e)));
+// `u32::max_value()`: "Returns the largest value that can be represented by this integer type" (deprecated alias of u32::MAX)
+pub assume_specification [u32::max_value] () -> (r: u32)
+    ensures r == u32::MAX;
